@@ -72,3 +72,8 @@ package eth
 //@   ensures [no-duplicate] (exists k int :: 0 <= k && k < old(len((*b).Txs)) && uint64(old((*b).Txs[k].Idx)) == idx) ==> len((*b).Txs) == old(len((*b).Txs))
 //@   ensures [added-when-absent] (forall k int :: 0 <= k && k < old(len((*b).Txs)) ==> uint64(old((*b).Txs[k].Idx)) != idx) ==> len((*b).Txs) == old(len((*b).Txs)) + 1 && uint64((*b).Txs[len((*b).Txs) - 1].Idx) == idx
 //@   loop#0 invariant forall k int :: 0 <= k && k <= rangeindex ==> uint64((*b).Txs[k].Idx) != idx
+
+// C18: the transaction hash memo is filled lazily by Hash() under cacheMut;
+// every other touch of the memo of a transaction that may be shared needs the
+// same lock.
+//@ guarded Tx.PrecompHash by cacheMut props=C18
